@@ -260,8 +260,9 @@ def _builders(db, chk, new, old, OPEN_N, CLOSE_N, START_O, END_O):
             ev_fields = lit(st.value.args[1])
     chk.ob("C03.R4-encoding", f"{OLD}: Event fields", ev_fields == ["idx", "time", "dur", "type"], OLD, found=ev_fields, accepted=["idx", "time", "dur", "type"])
     unit_g = [g] + [x for x in H.with_private_callees(old, old.func("CallStackGraph._construct_call_stack_graph")) if x is not old.func("CallStackGraph._construct_call_stack_graph")]
-    evs = [c for u_ in unit_g for c in H.calls(u_) if H.name_id(c.func) == "Event"]
-    evs = [c for i_, c in enumerate(evs) if not any(ast.dump(c) == ast.dump(d_) for d_ in evs[:i_])]          # (an inlined copy and the helper itself show the same call)
+    evs = [c for c in H.calls(g) if H.name_id(c.func) == "Event"]
+    if not evs:          # not written out in (the inlined) builder: look into the private helpers it calls (e.g. a generator of the boundary events)
+        evs = [c for u_ in unit_g[1:] for c in H.calls(u_) if H.name_id(c.func) == "Event"]
     # loop variables that stand for a column of the row: `for a, b in zip(df["x"], df["y"])` (a -> x), `for row in df.itertuples()` (row.x -> x)
     colvar = {}
     for u_ in unit_g:
